@@ -65,6 +65,14 @@ def run_variant(args):
             out['status'] = 'skipped'
             out['why'] = 'variant does not compile: ' + str(e)[-300:]
             return out
+        if variant.get('property') == 'C19':
+            import subprocess
+            r = subprocess.run([os.path.join(os.path.dirname(HERE), 'check'), 'C19'], env=dict(os.environ, MQ2_REPO=base),
+                               stdout=subprocess.PIPE, stderr=subprocess.STDOUT, text=True)
+            out['failing_rules_new'] = sorted({l.split('violated:')[1].split()[0] for l in r.stdout.split('\n') if 'violated:' in l})[:6]
+            out['status'] = 'fired' if r.returncode == 1 else ('MISSED' if variant['kind'] == 'violating' else 'silent')
+            os.remove(facts_path)
+            return out
         F = Facts(facts_path)
         ctx = Ctx(F)
         err = None
